@@ -2,12 +2,16 @@
 (* Exports the operator library of Gates.tla as JSON for the conformance harness. *)
 EXTENDS Gates, Json, TLC
 MCDim == <<2>>
+SX == INSTANCE SequencesExt
 AllGateIds == PolGateIds \cup FockGateIds \cup CompGateIds
               \cup {"Num", "PS4", "PS6", "BS0", "BS4", "BS6", "BS7", "RX0", "RX4", "RX6", "RX7"}
 GateX(g) == CASE g = "RX0" -> GRX(0) [] g = "RX4" -> GRX(4) [] g = "RX6" -> GRX(6) [] g = "RX7" -> GRX(7)
               [] OTHER -> Gate(g)
 CustomIds == {"shear", "proj0", "lower", "iskew", "cyc3", "mix3"}
+GenPts == {<<1, 0>>, <<0, 1>>, <<1, 1>>, <<2, -1>>, <<-1, 2>>}
 Lib == [gates  |-> [g \in AllGateIds |-> GateX(g)],
+        dgen   |-> [i \in 1..5 |-> LET z == SX!SetToSeq(GenPts)[i] IN [p |-> z[1], q |-> z[2], op |-> GDispGen(z[1], z[2])]],
+        sgen   |-> [i \in 1..5 |-> LET z == SX!SetToSeq(GenPts)[i] IN [p |-> z[1], q |-> z[2], op |-> GSqGen(z[1], z[2])]],
         custom |-> [c \in CustomIds |-> CustomMat(c)],
         kraus  |-> [c \in KrausIds |-> KrausSet(c)],
         povm   |-> [c \in PovmIds |-> PovmSet(c)]]
